@@ -47,8 +47,10 @@ def defs(sc):
 
 
 def harness_scen(sc, via="direct"):
-    return {"obj": {"kind": "histogram", "bounds": sc["bounds"], "via": via}, "threads": sc["threads"], "scripts": sc["scripts"],
-            "budget": sc.get("budget", 4000)}
+    obj = {"kind": "histogram", "bounds": sc["bounds"], "via": via}
+    if "shift" in sc:
+        obj["shift"] = sc["shift"]       # all values and bounds shifted down: stored sums are negative, reported sums shifted back
+    return {"obj": obj, "threads": sc["threads"], "scripts": sc["scripts"], "budget": sc.get("budget", 4000)}
 
 
 def merge_ords(results):
